@@ -5,6 +5,10 @@ HERE = os.path.dirname(os.path.dirname(os.path.abspath(__file__)))
 ALL = [f'C{i:02d}' for i in range(1, 21)]
 
 CHECKS = {
+ 'C07': dict(level='exploration', design='3/C07',
+   technique='deterministic schedule exploration at lock granularity (instance-level lock proxies, foreign transactions run at every scheduling point of the reader) + thread stress; per-version snapshot history as oracle',
+   text='The MDIB lock and the three table locks of the provider MDIB under test are replaced on the instance by proxies that report the outermost acquire / release events of the reader. For every request kind (GetMdib, GetMdDescription with/without handles, GetMdState all / handles / context descriptor, GetContextStates all / descriptor / MDS) every scheduling point the request exposes is enumerated and 1 (and 2, for one MDIB in quick, all in thorough) complete foreign transactions of five kinds (requested state, other state, descriptor update, descriptor create, new associated context state) are executed at that point; requests go through the real consumer service clients over the loop-back. A snapshot history recorded inside the commit critical section is the oracle: every entity of a response must equal by_version[v] for the stated MdibVersion v and the selection must be the one at v. A thread stress (3 writers, 3 readers, 10 us switch interval) checks every response the same way. Exhaustive within the stated bounds for the lock-granularity schedules, sampled for finer interleavings.',
+   note='Assumes a transaction holds the MDIB lock from begin to end (true for _transaction_manager), so running a foreign transaction synchronously at a point where the reader does not hold that lock equals scheduling a writer thread there. Interleavings inside serialisation are only reached by the thread stress.'),
  'C01': dict(level='exploration', design='3/C01',
    technique='runtime monitor: whole-MDIB canonical comparison consumer vs provider after every transaction of seeded histories over a socket-free loop-back of the real provider/consumer stack; per-report before/after monitor of the consumer observables against the report bytes',
    text='Real SdcProvider, SdcConsumer and ConsumerMdib are connected through an in-process loop-back transport (real SOAP clients, message factory/reader, schema validation, subscription managers - sync and async -, dispatchers). Seeded histories of all transaction kinds run on the four sample MDIBs (contextstates_in_getmdib on/off); one consumer is attached before the first transaction and one after a random prefix. After every transaction the canonical snapshot (descriptors with parents, states, context states, version group; lookups vs scan) of each consumer MDIB must equal the provider snapshot; for every delivered notification the consumer state of the entities in the report is captured before and after delivery and the observables fired in between must name exactly the entities that changed, with the objects stored in the tables. A consumer answering a valid report with an error is a violation.',
